@@ -740,6 +740,15 @@ func Span(dst []float64, l, u float64) []float64 {
 	}
 
 	step := (u - l) / float64(n-1)
+	if math.IsInf(step*float64(n-1), 0) {
+		// u-l is not representable: interpolate
+		// between the finite end points instead.
+		for i := range dst {
+			t := float64(i) / float64(n-1)
+			dst[i] = l*(1-t) + u*t
+		}
+		return dst
+	}
 	for i := range dst {
 		dst[i] = l + step*float64(i)
 	}
